@@ -108,3 +108,9 @@ add("C06",
     "initial points first and in order, no repeats, 'nothing left' only after all 6, grid exactly once. One real seed per obligation (the no-repeat clause is not claimed for every seed)",
     "symbolic execution of the real searcher / scheduler code (CrossHair engine + z3), reference-list oracle",
     "DESIGN.md 4 C06")
+add("C18",
+    "framing theorem decided by cvc5 in the theory of strings for lines of unbounded length: the regex literal and tag are extracted from report.py on every run, the leftmost-greedy match of a protocol line captures exactly the payload "
+    "(also when the payload contains the tag and braces); both protocol assumptions are shown necessary by satisfiable twins replayed through the real retrieve(). Reporter side: all 13 value kinds x 3 key prefixes x 2 reports "
+    "explored with the clock as a solver variable; reserved keys / unserialisable kinds rejected, accepted reports parse back unchanged, counter and time stamps monotone",
+    "direct SMT encoding (cvc5 QF_SLIA, unbounded strings) generated from the regex in the source + symbolic execution of the reporter (CrossHair engine + z3)",
+    "DESIGN.md 4 C18", note="trusted base: cvc5 1.0.3 string solver; hand-written model of re.findall semantics for this regex shape, differential-tested against re on every model; CPython json; crosshair-tool 0.0.110 + z3 5.1 for the reporter side")
